@@ -244,6 +244,18 @@ func (matrix *DenseInt16Matrix) Tip() {
   matrix.rowMax, matrix.colMax = matrix.colMax, matrix.rowMax
 }
 func (matrix *DenseInt16Matrix) AsVector() Vector {
+  if matrix.cols < matrix.colMax || matrix.rows < matrix.rowMax {
+    // this is a view on a larger matrix, copy the elements
+    // that belong to it
+    n, m := matrix.Dims()
+    v := make([]int16, n*m)
+    for i := 0; i < n; i++ {
+      for j := 0; j < m; j++ {
+        v[i*m + j] = matrix.values[matrix.index(i, j)]
+      }
+    }
+    return DenseInt16Vector(v)
+  }
   return DenseInt16Vector(matrix.values)
 }
 func (matrix *DenseInt16Matrix) storageLocation() uintptr {
@@ -333,7 +345,7 @@ func (matrix *DenseInt16Matrix) IsSymmetric(epsilon float64) bool {
   return true
 }
 func (matrix *DenseInt16Matrix) AsConstVector() ConstVector {
-  return DenseInt16Vector(matrix.values)
+  return matrix.AsVector()
 }
 /* implement ScalarContainer
  * -------------------------------------------------------------------------- */
